@@ -283,6 +283,10 @@ impl Prop for C01 {
             };
             push(format!("shape:{}", c.ty.kind()), vec![src], d.clone());
         }
+        // --- OF towers around anonymous types inside components (hoisting must see through every OF level)
+        for t in c02::of_towers(if tier.thorough() { 3 } else { 2 }) {
+            push(format!("shape:of-tower:{}", t.kind()), vec![module_text(&t, "AUTOMATIC", false)], d.clone());
+        }
         // --- values and DEFAULTs: one representative per (notation, feature, route)
         let mut seen = std::collections::BTreeSet::new();
         for c in c07::C07.enumerate(Tier::Quick, seed) {
